@@ -195,6 +195,23 @@ def body(case):
         if first is None:
             first = obj
             first_beh = behaviour(cls, obj, doc)
+            if "path-or-escaped-arg" in feats or len(snap) % 3 == 0:
+                # other specs are parsed in between, a good dozen of them: well-formed conditions whose argument is a
+                # LITERAL mapping that merely looks like a path spec (unknown suffix), and a malformed path spec
+                ns_ = build.ns()
+                for j in range(14):
+                    for other in ({"value.equal_to": {"path.units": ["m", "s"]}}, {"value.in": [{"path.nope.first": ["a"]}, 1]}):
+                        try:
+                            with warnings.catch_warnings():
+                                warnings.simplefilter("ignore")
+                                ns_.c.ConditionLike.from_spec(copy.deepcopy(other))
+                        except Exception:
+                            pass
+                    try:
+                        ns_.d.DataPath.from_spec({"path.units": ["m"]})
+                    except Exception:
+                        pass
+                out.label("other-specs-in-between")
         else:
             try:
                 same = (obj == first) is True and (first == obj) is True
@@ -266,6 +283,13 @@ def body_text(case):
         return out
     out.sample = text[:400]
 
+    td_holder = tempfile.TemporaryDirectory() if how == "yaml-file" else None
+    if td_holder is not None:
+        # ONE file, loaded twice (unchanged in between)
+        fn = os.path.join(td_holder.name, "s.yaml")
+        with open(fn, "w", encoding="utf-8") as fh:
+            fh.write(text)
+
     def parse_once():
         with warnings.catch_warnings():
             warnings.simplefilter("ignore")
@@ -273,16 +297,20 @@ def body_text(case):
                 return ns.s.Schema.from_json_like(json.loads(text))
             if how == "yaml":
                 return ns.s.Schema.from_yaml(text)
-            with tempfile.TemporaryDirectory() as td:
-                fn = os.path.join(td, "s.yaml")
-                with open(fn, "w", encoding="utf-8") as fh:
-                    fh.write(text)
-                return ns.s.Schema.from_yaml_file(fn)
+            return ns.s.Schema.from_yaml_file(fn)
 
     try:
-        a = parse_once()
+        a_live = parse_once()
+        a = copy.deepcopy(a_live)
+        # the caller goes on to use what it loaded: the first result receives another schema
+        try:
+            a_live.add_schema(ns.s.Schema.from_json_like([{"path": ["zz"], "condition": {"value.truthy": None}}]), ns.d.DataPath("grown"))
+        except Exception:
+            pass
     except Exception as e:
         out.exc("parse-text", e)
+        if td_holder is not None:
+            td_holder.cleanup()
         return out
     if between is not None:
         out.label(f"between:{between.split(chr(10))[0]}")
@@ -301,6 +329,9 @@ def body_text(case):
     except Exception as e:
         out.exc("parse-text", e)
         return out
+    finally:
+        if td_holder is not None:
+            td_holder.cleanup()
     try:
         same = (a == b) is True and (b == a) is True
     except Exception as e:
